@@ -577,3 +577,40 @@ def truth_cases(outs: Sequence[Outcome], atoms: Sequence[str], kinds: Sequence[s
         got = sorted({(k, norm(v) if v is not None else None) for k, v, _ in eval_under(outs, facts, kinds)})
         res[vals] = got
     return res
+
+
+def loops_of(outs: Sequence[Outcome]):
+    """The distinct loops (markers with _sym_head / _sym_env / _sym_orig) seen in the outcomes, outermost first."""
+    seen, res = set(), []
+    for o in outs:
+        for l in o.loops:
+            if id(l._sym_orig) not in seen:
+                seen.add(id(l._sym_orig))
+                res.append(l)
+    return res
+
+
+def iteration_effects(outs: Sequence[Outcome], loop, facts: Dict[str, bool]):
+    """What one iteration of ``loop`` does under ``facts``: the distinct (way the iteration ends, [effects executed in it],
+    env at its end), effects and env values partially evaluated under the facts."""
+    inl = [o for o in outs if any(l._sym_orig is loop._sym_orig for l in o.loops)]
+    pre = None
+    res, seen = [], set()
+    for o in select(inl, facts, kinds=("fall", "continue", "break", "return", "raise", "yield", "yield_from")):
+        # effects recorded before the loop was entered are a common prefix of every in-loop outcome
+        if pre is None:
+            pre = min((len(x.effects) for x in inl), default=0)
+            common = 0
+            while common < pre and all(norm(x.effects[common]) == norm(inl[0].effects[common]) and not _in_loop_effect(x.effects[common]) for x in inl):
+                common += 1
+            pre = common
+        own = [simplify(e, facts) if not isinstance(e, (ast.For, ast.While)) else e for e in o.effects[pre:]]
+        key = (o.kind, tuple(norm(e) for e in own), norm(o.value) if o.value is not None else None)
+        if key not in seen:
+            seen.add(key)
+            res.append((o.kind, own, {k: simplify(v, facts) for k, v in o.env.items()}, o))
+    return res
+
+
+def _in_loop_effect(e) -> bool:
+    return False
